@@ -345,12 +345,21 @@ func GetRulePatterns(ctx *Context, rule map[string]interface{}) []map[string]int
 	if !have {
 		return nil
 	}
-	when := eventPattern.(map[string]interface{})
+	when, ok := eventPattern.(map[string]interface{})
+	if !ok {
+		// Not a 'when' we can index.  A fact can say anything.
+		Log(WARN, ctx, "core.GetRulePatterns", "badWhen", eventPattern)
+		return nil
+	}
 	events := make([]map[string]interface{}, 0, 1)
 	p, fromQuery := when["pattern"]
-	// ToDo: Better type processing.
 	if fromQuery {
-		events = append(events, p.(map[string]interface{}))
+		pattern, ok := p.(map[string]interface{})
+		if !ok {
+			Log(WARN, ctx, "core.GetRulePatterns", "badPattern", p)
+			return nil
+		}
+		events = append(events, pattern)
 	} else {
 		events = append(events, when)
 	}
